@@ -89,11 +89,15 @@ def run(rep, tier, pool, variants=("shipped",)):
     for _ in range(n):
         k = r.choice([2, 2, 3, 4])
         cases.append([r.choice(stmts) for _ in range(k)])
+    # long sequences: anything whose behaviour depends on how much was parsed before (table sizes, counters, depth)
+    callheavy = "".join(f"r{i} = f(a[{i}], g(b, c=h(d)), [e for e in k if e], {{m: n}})\n" for i in range(40))
+    for na in (range(2810, 3100, 48) if tier == "quick" else range(2500, 6000, 23)):
+        cases.append(["x = 1\n" * na, callheavy])
     for variant in variants:
         res = pool.call("harness.props.c14:check_seq", [(c, variant) for c in cases], timeout=60)
         for c, o in zip(cases, res):
             ident = "".join(c)
-            if o.get("skip") or o.get("k") in ("hang", "crash", "worker-exc"):
+            if o.get("skip") or o.get("k") in ("hang", "crash", "worker-exc", "not-run"):
                 rep.case(ident, False)
                 rep.count("skip:" + str(o.get("skip") or o.get("k")))
                 continue
